@@ -7,7 +7,7 @@ import re
 
 from ..astutil import attr_chain, call_attr, calls_in, guard_facts, unparse, walk_local, text_facts
 from ..cfg import CFG
-from ..dataflow import reaching_defs
+from ..dataflow import reaching_defs, resolved_text
 from ..report import Finding, Report
 from ..srcindex import AnalysisError, FuncInfo, Index
 
@@ -286,7 +286,18 @@ def check(idx: Index, rep: Report, tier: str) -> str:
     ctor = [c for c in calls_in(wiring.node) if call_attr(c) == "PatternRewriterListener"]
     if len(ctor) != 1:
         raise AnalysisError(f"{wiring.fq}: PatternRewriterListener(...) construction not found")
-    kws = {k.arg: k.value for k in ctor[0].keywords}
+    kws = {k.arg: k.value for k in ctor[0].keywords if k.arg is not None}
+    wcfg = CFG(wiring.node)
+    for k in ctor[0].keywords:
+        if k.arg is None:  # **table: a literal dict of handler lists keyed by field name
+            d_ = k.value
+            if isinstance(d_, ast.Name):
+                ds_ = [v_ for _, v_ in reaching_defs(wcfg, d_.id, wcfg.node_of(ctor[0])) if v_ is not None]
+                d_ = ds_[0] if len(ds_) == 1 else d_
+            if isinstance(d_, ast.Dict) and all(isinstance(kk, ast.Constant) and isinstance(kk.value, str) for kk in d_.keys):
+                kws.update({kk.value: vv for kk, vv in zip(d_.keys, d_.values)})  # type: ignore[union-attr]
+            else:
+                raise AnalysisError(f"{wiring.fq}: keyword table `**{unparse(k.value)}` of the listener construction not understood")
     for cls, fld in fields:
         inst = f"{cls.name}.{fld}"
         problems = []
@@ -295,7 +306,8 @@ def check(idx: Index, rep: Report, tier: str) -> str:
         if disp is None or not any(isinstance(w, ast.For) and unparse(w.iter) == f"self.{fld}" and any(isinstance(c.func, ast.Name) and c.func.id == unparse(w.target) for c in calls_in(w)) for w in walk_local(disp.node)):
             problems.append(("no-dispatch", f"no handle_{stem} method calling every callback of {fld}"))
         ext = cls.method("extend_from_listener")
-        if ext is None or not any(unparse(c.func) == f"self.{fld}.extend" and unparse(c.args[0]) == f"listener.{fld}" for c in calls_in(ext.node)):
+        ecfg = CFG(ext.node) if ext is not None else None
+        if ext is None or not any(call_attr(c) == "extend" and c.args and resolved_text(ecfg, c.func.value, ecfg.node_of(c)) == f"self.{fld}" and resolved_text(ecfg, c.args[0], ecfg.node_of(c)) == f"listener.{fld}" for c in calls_in(ext.node) if isinstance(c.func, ast.Attribute)):
             problems.append(("not-forwarded", f"extend_from_listener does not forward {fld}"))
         if cls is pl and ext is not None and not any(unparse(c.func) == "super().extend_from_listener" for c in calls_in(ext.node)):
             problems.append(("no-super", "PatternRewriterListener.extend_from_listener does not call the base class forwarder"))
@@ -303,7 +315,7 @@ def check(idx: Index, rep: Report, tier: str) -> str:
         if v is None:
             problems.append(("not-wired", f"the walker's listener does not receive {fld}"))
         else:
-            t = unparse(v)
+            t = resolved_text(wcfg, v, wcfg.node_of(ctor[0]))
             if f"self.listener.{fld}" not in t:
                 problems.append(("user-listener-dropped", f"callbacks of the user-supplied listener for {fld} are not included"))
             if fld.startswith("operation_") and f"self._handle_{stem}" not in t:
